@@ -80,12 +80,14 @@ type Message struct {
 }
 
 type File struct {
-	Name      string     `json:"name"`    // x.proto
-	Package   string     `json:"package"` // proto package
-	GoPackage string     `json:"go_package,omitempty"`
-	Getters   bool       `json:"getters,omitempty"` // goproto_getters_all
-	Enums     []*Enum    `json:"enums,omitempty"`
-	Messages  []*Message `json:"messages"`
+	Name      string `json:"name"`    // x.proto
+	Package   string `json:"package"` // proto package
+	GoPackage string `json:"go_package,omitempty"`
+	// DepGoPackage: go_package option of the imported file when it is spelled differently ("" = like GoPackage)
+	DepGoPackage string     `json:"dep_go_package,omitempty"`
+	Getters      bool       `json:"getters,omitempty"` // goproto_getters_all
+	Enums        []*Enum    `json:"enums,omitempty"`
+	Messages     []*Message `json:"messages"`
 	// CastTypes declared in the struct package: name -> underlying Go type.
 	CastTypes map[string]string `json:"cast_types,omitempty"`
 	// CustomTypes declared in the struct package: name -> underlying Go type.
